@@ -119,6 +119,9 @@ FRAGMENTS = [
     lambda r: "<math>\\frac{a}{b}</math>",
     lambda r: "<gallery>\nFile:A.png|%s\nFile:B.png\n</gallery>" % words(r, 3),
     lambda r: "<ul><li>a</li><b>x</b><ol><li>q</li></ol>loose</ul>",
+    # a heading line cut by table markup (one token used to end up in two places of the tree)
+    lambda r: " {|\n%s ||%s==\n[http://e.none]</\n== <%s> ===" % (r.choice(("===", "==", "=")), words(r, 1), r.choice(("table", "td", "div", "ref", "b"))),
+    lambda r: "{|\n|\n%s\n{|\n|}<%s> </%s>\n=%s<TH ref>C=" % (r.choice(("=|=", "==|==", "= a | b =")), *((r.choice(("hiero", "math", "b", "ref")),) * 2), words(r, 1)),
     # a layout table whose cells hold nothing but big tables, one of which holds a table itself (three levels)
     lambda r: "{|\n|\n" + "\n|\n".join(
         '{| class="wikitable"\n| %s || %s\n|-\n|%s\n| %s\n|}' % (
